@@ -94,6 +94,13 @@ var verifiers = []string{
 	"vvvvvvvvvvvvvvvvvvvvvvvvvvvvvvvvvvvvvvvvvvv", // exactly 43
 }
 
+// verifiers outside the 43..128 window: a challenge derived from one of them can never be satisfied
+var badVerifiers = []string{
+	"wwwwwwwwwwwwwwwwwwwwwwwwwwwwwwwwwwwwwwwwww", // 42
+	"wwwwwwwwwwwwwwwwwwwwwwwwwwwwwwww",           // 32
+	"w" + strings.Repeat("x", 128),                // 129
+}
+
 func (g *gen) op(line string) string {
 	if g.bias == "C18" {
 		return g.faultyOp(line)
@@ -107,7 +114,7 @@ var faultKinds = []string{"generic", "generic", "serialization", "not_found"}
 
 func isEndpointOp(line string) bool {
 	switch line[:strings.IndexByte(line+"\t", '\t')] {
-	case "redeem", "refresh", "devicePoll", "cc", "password", "authorize", "revoke", "parPush", "authorizePar", "deviceAuthorize", "introspect", "introspectHTTP", "authorizeRU":
+	case "redeem", "redeemAs", "refresh", "devicePoll", "cc", "password", "authorize", "revoke", "parPush", "authorizePar", "deviceAuthorize", "introspect", "introspectHTTP", "authorizeRU":
 		return true
 	}
 	return false
@@ -195,8 +202,9 @@ func (g *gen) setup() {
 	codeLife := []int64{600 * sec, 60 * sec, 900 * sec}[r.Intn(3)]
 	atLife := []int64{3600 * sec, 30 * sec, 300 * sec}[r.Intn(3)]
 	rtLife := []int64{30 * 24 * 3600 * sec, 120 * sec, -1}[r.Intn(3)]
-	pk := r.Intn(4)
-	g.cfg = map[string]string{"pkce": b01(pk == 1), "pkcePublic": b01(pk == 2), "plain": b01(r.Intn(3) == 0)}
+	pk := r.Intn(5)
+	// (pk == 4: both enforcement switches on)
+	g.cfg = map[string]string{"pkce": b01(pk == 1 || pk == 4), "pkcePublic": b01(pk == 2 || pk == 4), "plain": b01(r.Intn(3) == 0)}
 	g.cfgPAR = r.Intn(12) == 0 && g.bias != "C16"
 	if g.bias == "C17" && r.Intn(3) == 0 {
 		g.cfgPAR = true
@@ -315,13 +323,23 @@ func (g *gen) authorize() {
 	ga := pickN(r, aud, 90)
 	sub := []string{"alice", "bob", "alice", ""}[r.Intn(4)]
 	challenge, method, verifier := "", "", ""
-	switch r.Intn(6) {
+	switch r.Intn(7) {
 	case 0, 1, 2:
 		verifier = verifiers[r.Intn(len(verifiers))]
 		challenge, method = "H("+verifier+")", "S256"
 	case 3:
 		verifier = verifiers[r.Intn(len(verifiers))]
 		challenge, method = verifier, []string{"plain", ""}[r.Intn(2)]
+	case 5:
+		if g.bias == "C03" || r.Intn(4) == 0 {
+			// a challenge made from a verifier that is too short / too long: presenting that verifier must fail
+			verifier = badVerifiers[r.Intn(len(badVerifiers))]
+			if r.Bool() {
+				challenge, method = "H("+verifier+")", "S256"
+			} else {
+				challenge, method = verifier, "plain"
+			}
+		}
 	case 4:
 		if g.bias == "C03" || r.Intn(3) == 0 {
 			// method spellings that are not a method: must be refused at the authorization endpoint, or a later
@@ -416,6 +434,15 @@ func (g *gen) redeem(gr *gGrant, kind int) {
 	case 7: // verifier although none was registered
 		if verifier == "" {
 			verifier = verifiers[0]
+		}
+	case 8: // a confidential client authenticates as itself (Basic) and names the code's client in the body
+		oc := g.otherClient(gr.client)
+		if !oc.public {
+			obs := g.op(fmt.Sprintf("redeemAs\t%s\t%s\t%s\t%s\t%s\t%s\t%s\t%s", oc.id, cred, code, redirect, verifier, encListS(scopes), encListS(aud), gr.client))
+			if g.noteTokens(gr, obs) {
+				gr.redeemed = true
+			}
+			return
 		}
 	}
 	obs := g.op(fmt.Sprintf("redeem\t%s\t%s\t%s\t%s\t%s\t%s\t%s", client, cred, code, redirect, verifier, encListS(scopes), encListS(aud)))
@@ -949,7 +976,7 @@ func (g *gen) History(n int) {
 				}
 			} else {
 				if r.Intn(10) < 3 {
-					g.redeem(gr, 1+r.Intn(7))
+					g.redeem(gr, 1+r.Intn(8))
 				}
 				g.redeem(gr, 0)
 			}
@@ -957,7 +984,7 @@ func (g *gen) History(n int) {
 			// replay / attack on any grant's code
 			gr := g.grants[r.Intn(len(g.grants))]
 			if gr.code != "" {
-				g.redeem(gr, r.Intn(8))
+				g.redeem(gr, r.Intn(9))
 			}
 		case x < 55 && len(live) > 0:
 			g.refresh(live[r.Intn(len(live))], 0)
